@@ -1005,3 +1005,5 @@ func vPostedDocumentSigned(b64doc string) bool {
 	}
 	return bytes.Contains(b, []byte("SignatureValue"))
 }
+
+func vContains(s, sub string) bool { return strings.Contains(s, sub) }
